@@ -170,6 +170,24 @@ class PathState:
             self.learn_domains(c)
         return d
 
+    def known_truth(self, cond):
+        """truth of a condition already decided on this path (no solver), else None"""
+        if isinstance(cond, bool):
+            return cond
+        c = z3.simplify(cond)
+        if z3.is_true(c):
+            return True
+        if z3.is_false(c):
+            return False
+        k = self.decided.get(c.get_id())
+        if k is not None:
+            return k
+        if z3.is_not(c):
+            k = self.decided.get(c.arg(0).get_id())
+            if k is not None:
+                return not k
+        return None
+
     def implied(self, cond):
         """True when pc => cond is established (unsat of pc and not cond)"""
         if isinstance(cond, bool):
